@@ -80,7 +80,7 @@ def run(ck: Check) -> int:
     ck.stream('K1-parse-text', s_k1)
 
     # ---- search: documented exceptions only, through the public APIs
-    allowed = (W.PatternLimitException, SyntaxError, LookupError, TypeError, ValueError)
+    allowed = (W.PatternLimitException, SyntaxError, KeyError, TypeError, ValueError)   # KeyError = unicodedata.lookup; NOT LookupError (IndexError is one)
 
     def s_api(sr):
         sr.note = ('public APIs (fnmatch/glob translate+compile+match+filter, glob() on a small tree, WcMatch) on '
